@@ -302,6 +302,9 @@ const (
 	VLeafNegLong   = leafNegLong
 	VLeafMinLong   = leafMinLong
 	VLeafSmallLong = leafSmallLong
+	VLeafDatetime  = leafDatetime
+	VLeafDuration  = leafDuration
+	VLeafIP        = leafIP
 )
 
 // VErrClass classifies an evaluation error by its sentinel.
